@@ -22,7 +22,12 @@ SLOTS = {"b1": (1, 8, 13), "b2": (1, 7, 17), "b3": (1, 5, 18)}
 SNIPPETS = {
     "lexical": [".ascii 'abc", "lda.q 1", "lda 1,z", ".foo 1", "lda #!1"],
     "syntax": ["lda.w", "sta.w #", ".macro (", "= 5"],
-    "undefined_macro": ["nosuchmacro(1)"],
+    # `faulty` is a macro other cases of this family define: it must still be undefined in a source that does not
+    "undefined_macro": ["nosuchmacro(1)", "faulty()"],
+    # an argument naming a symbol defined nowhere, through a parameter that is unused / shadows an outer symbol
+    "undefined_macro_arg": [".macro unusedp(q) {\n.db 1\n}\nunusedp(nosuchsym)",
+                            "shv := 7\n.macro shadowed(shv) {\n.db shv\n}\nshadowed(nosuchsym)",
+                            ".macro outerm(addr) {\n.macro innerm(addr) {\n.dw addr\n}\ninnerm(addr)\n}\nouterm(nosuchsym)"],
     "too_few_args": ["two(1)"],
     "missing_include": [".include 'nofile.s'"],
     "missing_incbin": [".incbin 'nofile.bin'"],
@@ -74,7 +79,7 @@ def build(case: dict, variant: int) -> dict:
 
 
 def run(ctx) -> None:
-    ctx.rule = ("cases = GenC14: 4 entry points x 19 fault classes x 10 positions x 3 base programs (x snippet variants); "
+    ctx.rule = ("cases = GenC14: 4 entry points x 20 fault classes x 10 positions x 3 base programs (x snippet variants); "
                 "non-trivial = distinct (entry, fault class, position, base, variant)")
     ctx.trusted = ["TLC 1.8", "spec/Front.tla, FrontDefs.tla", "fault snippets and base programs in harness/props/c14.py "
                    "(each snippet is a definite error by construction)"]
